@@ -2,7 +2,11 @@
   Driver/C19.lean — stream handlers of C19.
 
   c19.ops   payload:  src=<hex> rd=<str|one|k3|eofd|file> ty=<t|b> eof=<error|eof_code|reset> drain=<n> | q1 ; q2 ; …
-            a query is a conjunction of ops separated by blanks: gc pc gb pb rt ae pp pe
+            optional header field tab=<off>:<nbytes>:<s|S|e>,…  = reads that do not deliver a term, measured on the real
+            reader alone: started at byte offset off it pulls nbytes bytes and raises a syntax error on the last rune
+            pulled (s) / at the end of the input (S), or reports io.EOF inside a clause (e).
+            a query is a conjunction of ops separated by blanks: gc pc gb pb rt ae pp pe (gk pk = get_code, peek_code:
+            the same as gc pc, the harness prints the code as the character)
             (upper case = called through the arity-1 wrapper of bootstrap.pl on the current input;
             same meaning).  `drain=n` appends n single-op queries (gc on text, gb on binary streams).
             output:   per query  "<result> … @<position>,<end_of_stream>,<lastRuneSize>,<buffered>", joined by " ; "
@@ -50,12 +54,33 @@ def readerOf (kind : String) (len : Nat) : Option Reader :=
 def opOf (w : String) : Option Op :=
   match w.toLower with
   | "gc" => some .getChar | "pc" => some .peekChar | "gb" => some .getByte | "pb" => some .peekByte
+  | "gk" => some .getChar | "pk" => some .peekChar
   | "rt" => some .readTerm | "ae" => some .atEnd | "pp" => some .propPos | "pe" => some .propEos
   | _ => none
 
 structure Case where
   cfg : Cfg
   prog : List (List Op)
+  tab : Clause.Measured.Table := []
+
+/-- the runes of a byte sequence (utf8.DecodeRune, rune by rune) -/
+def runesOf : Nat → List Nat → List Nat
+  | 0, _ => []
+  | _, [] => []
+  | fuel + 1, b :: bs =>
+    let d := decodeRune (b :: bs)
+    d.1 :: runesOf fuel ((b :: bs).drop (max d.2 1))
+
+def parseTab (src : List Nat) (t : String) : Option Clause.Measured.Table :=
+  ((t.splitOn ",").filter (· ≠ "")).mapM fun e =>
+    match e.splitOn ":" with
+    | [o, n, k] => do
+      let off ← natOfChars o.toList
+      let len ← natOfChars n.toList
+      let kind ← match k with
+        | "s" => some Clause.Measured.Kind.synRune | "S" => some .synEOF | "e" => some .eofMid | _ => none
+      pure (runesOf (len + 1) ((src.drop off).take len), kind)
+    | _ => none
 
 def parseCase (payload : String) : Option Case :=
   match payload.splitOn " | " with
@@ -69,7 +94,8 @@ def parseCase (payload : String) : Option Case :=
     let drain := ((kv ws "drain").bind (fun d => natOfChars d.toList)).getD 0
     let qs ← (splitOps ops).mapM fun q => (words q).mapM opOf
     let d : Op := if typ = .text then .getChar else .getByte
-    pure { cfg := { src := src, rd := rd, typ := typ, action := act }, prog := qs ++ List.replicate drain [d] }
+    let tab ← parseTab src ((kv ws "tab").getD "")
+    pure { cfg := { src := src, rd := rd, typ := typ, action := act }, prog := qs ++ List.replicate drain [d], tab := tab }
   | _ => none
 
 /-! ## printing -/
@@ -100,7 +126,7 @@ def runModel (cs : Case) : String :=
   let rec go : List (List Op) → Stream → List String
     | [], _ => []
     | q :: qs, s =>
-      let p := runConj cs.cfg Clause.scanner q s
+      let p := runConj cs.cfg (Clause.Measured.scanner cs.tab false) q s
       queryOut q.length p.1 (stateTok p.2) :: go qs p.2
   " ; ".intercalate (go cs.prog Stream.init)
 
@@ -127,7 +153,9 @@ def opName : Op → String
 def cursorStr (cu : Spec.Cursor) : String := s!"index={cu.idx} eof_delivered={cu.delivered}"
 
 /-- judge one query's printed output; returns the next cursor or a reason -/
-def judgeQuery (sc : Spec.SCfg) (qi : Nat) (ops : List Op) (out : String) (cu : Spec.Cursor) : Except String Spec.Cursor :=
+def judgeQuery (sc : Spec.SCfg) (tab : Clause.Measured.Table) (qi : Nat) (ops : List Op) (out : String) (cu : Spec.Cursor) : Except String Spec.Cursor :=
+  -- the specification's reader: as measured, except that an input that ends inside a clause is a syntax error
+  let rdr := Clause.Measured.scanner tab true
   let ws := words out
   let toks := ws.filter (fun w => !w.startsWith "@")
   let st := ws.find? (fun w => w.startsWith "@")
@@ -139,14 +167,14 @@ def judgeQuery (sc : Spec.SCfg) (qi : Nat) (ops : List Op) (out : String) (cu : 
         match parseRes w with
         | none => .error s!"query {qi} goal {j}: unreadable result {w}"
         | some r =>
-          match Spec.check sc Clause.scanner o cu r with
+          match Spec.check sc rdr o cu r with
           | none =>
             let want := match o with
               | .getChar => resTok (Spec.readChar sc true cu).1
               | .peekChar => resTok (Spec.readChar sc false cu).1
               | .getByte => resTok (Spec.readByte sc true cu).1
               | .peekByte => resTok (Spec.readByte sc false cu).1
-              | .readTerm => resTok (Spec.readTerm sc Clause.scanner cu).1
+              | .readTerm => resTok (Spec.readTerm sc rdr cu).1
               | .propPos => "p" ++ toString cu.idx
               | _ => "a value consistent with the cursor"
             .error s!"query {qi} goal {j} ({opName o}) delivered {w}, the cursor ({cursorStr cu}) demands {want}"
@@ -180,7 +208,7 @@ def judgeCase (cs : Case) (impl : String) : String :=
   if outs.length ≠ cs.prog.length then "FAIL number of query outputs differs from number of queries" else
   let rec go : List (List Op) → List String → Nat → Spec.Cursor → String
     | q :: qs, o :: os, i, cu =>
-      match judgeQuery sc i q o cu with
+      match judgeQuery sc cs.tab i q o cu with
       | .error e => "FAIL " ++ e
       | .ok cu' => go qs os (i + 1) cu'
     | _, _, _, _ => "ok"
